@@ -183,7 +183,7 @@ def _answer_class(t) -> str:
 
 def validate_runs(traces: list[dict]):
     cfg = "\n".join([
-        "SPECIFICATION TraceSpec", "CONSTANTS", "  Names <- TraceNames", "  AmbigNames = {}", "  Kinds = {}", "  MaxRuns = 1", "  MaxWrites = 0", "  MaxRemoves = 0",
+        "SPECIFICATION TraceSpec", "CONSTANTS", "  Names <- TraceNames", "  AmbigNames = {}", "  Kinds = {}", "  MaxRuns = 1", "  MaxWrites = 0", "  MaxRemoves = 0", "  MaxFails = 0",
         "  Lookups = TRUE", "CONSTRAINT Progress", "POSTCONDITION Accepted", "CHECK_DEADLOCK FALSE",
         "INVARIANT RunKeyUnique", "INVARIANT LatestIsOwnMax", "INVARIANT GetIsExact"]) + "\n"
     with tempfile.TemporaryDirectory(prefix="verif_c18t_") as td:
